@@ -56,7 +56,8 @@ KindsFor(p) ==
      /\ (p \in {"slice", "slicefield", "slice2"} => ~(kd.k = "uint" /\ kd.w = 8))     \* the unnamed []uint8 is []byte
      /\ (p = "top" => kd.k # "null") }
 \* container lengths: -1 = nil, 0 = empty, 1, 2
-LensFor(p) == IF p \in LenPositions THEN LenSweep ELSE
+LensFor(p) == IF p \in {"LN_map", "LN_counted"} THEN LenSweep \cap ((0..4) \cup (124..130))     \* (the byte matcher is cubic in the number of entries)
+              ELSE IF p \in LenPositions THEN LenSweep ELSE
               IF p \in {"slice", "slicefield", "sliceptr", "slice2", "mapkey", "mapval", "mapptrval", "slicestruct", "protoslice", "protomapval"}
               THEN {-1, 0, 1, 2} ELSE IF p = "ptrfield" THEN {-1, 1} ELSE {1}
 
